@@ -11,7 +11,9 @@ EXPLANATION = (
     "are the same definition, raw=True accompanies the kernel route, the result is stored once through the constructor/out.set_val; R5 under optimal "
     "sizing every alignment exponent is >= 0 (max(a,b)-a, product exponent 0), so the kernels only multiply integers; R6 flags other than inaccuracy are "
     "raised only by the overflow handler (no propagation of overflow/underflow into results). Operators reach these functions (C08.R4). "
-    "Residual: carrier overflow at 64 bits is C19's subject.")
+    "Residual: carrier overflow at 64 bits is C19's subject."
+    " Added after the third round of seeded changes: R8 the value (float) route of the wrappers is taken only for method='repr', a scaled operand or n_frac None; governing configuration (C08.R3), constructor state (C20.R2), current n_int after resize (C02.R3), the 64-bit machine carrier (C18.R5) and transparent numpy dispatch (C15.R5) are included."
+)
 ASSUMPTIONS = ["operands are well-formed Fxp objects (C02)", "n_frac of Fxp operands are integers"]
 TRUSTED = ["CPython ast", "fxlint term normaliser", "scale typing rules of DESIGN A6"]
 
